@@ -50,7 +50,7 @@ class TaskShadow(object):
                  "decided_strategy", "start_t", "finish_t", "cancel_t", "n_start",
                  "n_finish", "n_cancel", "runtime", "demand", "worker", "place_t",
                  "remove_t", "n_preempt", "fuzz_hi", "resolved_prob", "n_sched",
-                 "ever_offered", "batch")
+                 "ever_offered", "batch", "fallback")
 
     def __init__(self, key, task, node, graph):
         self.key = key
@@ -81,6 +81,7 @@ class TaskShadow(object):
         self.fuzz_hi = None
         self.resolved_prob = None
         self.ever_offered = False
+        self.fallback = V
         self.batch = None
 
 
@@ -161,6 +162,8 @@ class RunMonitor(H.NullMonitor):
         self.inflight_max = {}
         self.flags = self.desc.flags
         self.policy = self.flags.get("scheduler", "EDF")
+        if world.get("adv") is not None:
+            self.policy = "ADV"  # tape-driven scheduler (vf/adv.py): not a greedy one
         self.enforce = bool(self.flags.get("enforce_deadlines", False))
         self.variance = int(self.flags.get("runtime_variance", 0))
         self.loop_timeout = self.flags.get("loop_timeout", MAXSIZE)
@@ -511,6 +514,7 @@ class RunMonitor(H.NullMonitor):
             sh.released = True
             if pre == V:
                 sh.state = R
+                sh.fallback = R
             self.stat("releases")
         elif op == "schedule":
             pl = a[1] if len(a) > 1 else k.get("placement")
@@ -526,7 +530,10 @@ class RunMonitor(H.NullMonitor):
             if not sh.released:
                 self.stat("scheduled_before_release")
         elif op == "unschedule":
-            sh.state = R if sh.released else V
+            # C06: "may fall back from SCHEDULED to its earlier state": the state it
+            # was scheduled from.  A release that arrives while the task is SCHEDULED
+            # does not change that earlier state (the task was scheduled as VIRTUAL).
+            sh.state = sh.fallback
             sh.decided_t = None
             self.stat("retractions")
         elif op == "start":
